@@ -115,6 +115,16 @@ Proof. reflexivity. Qed.
 (* B. the instance                                                                                                    *)
 Definition bz (b : bytes) : Z := Z.of_N (be_decode b).
 
+(* NOTE for maintainers: never write `match <term containing eG / esmul> with` in a Definition here: the elaborator
+   head-normalises the scrutinee, which unfolds the carrier test n*G = O of Proofs/ComposeEcInst.v (n additions). The
+   eliminators below are applied as functions instead. *)
+Definition sec_of_coords (o : option (Z * Z)) (compressed : bool) : outcome bytes :=
+  match o with
+  | Some pr => Sec.public_pair_to_sec pr compressed
+  | None => Raise E_TYPE                           (* to_bytes_32(None) *)
+  end.
+Definition ret_or {A} (dflt : A) (o : outcome A) : A := match o with Ret a => a | _ => dflt end.
+
 Definition secret_ok (se : bytes) : Prop := 1 <= bz se < secp256k1_n.
 Definition digest_ok (d : bytes) : Prop := 0 < bz d < 2 ^ 256.
 
@@ -135,18 +145,14 @@ Local Notation gen_k := (deterministic_generate_k hmac 32 kfuel).
 
 (* Key(secret_exponent=se).public_pair() = se * G, then public_pair_to_sec; infinity has no coordinates (TypeError) *)
 Definition ec_pub_out (se : bytes) (compressed : bool) : outcome bytes :=
-  match ecoords (esmul c (bz se) G) with
-  | Some pr => Sec.public_pair_to_sec pr compressed
-  | None => Raise E_TYPE
-  end.
-Definition ec_pub_of (se : bytes) (compressed : bool) : bytes :=
-  match ec_pub_out se compressed with Ret b => b | _ => [] end.
+  sec_of_coords (ecoords (esmul c (bz se) G)) compressed.
+Definition ec_pub_of (se : bytes) (compressed : bool) : bytes := ret_or [] (ec_pub_out se compressed).
 
 (* signing_solver: generator.sign, low-S normalisation, der.sigencode_der *)
 Definition ec_sign_out (se d : bytes) : outcome bytes :=
   do '(r, s) <- e_sign gen_k fuel (bz se) (bz d);
   sigencode_der r (if n <? s + s then n - s else s).
-Definition ec_sign (se d : bytes) : bytes := match ec_sign_out se d with Ret b => b | _ => [] end.
+Definition ec_sign (se d : bytes) : bytes := ret_or [] (ec_sign_out se d).
 Definition ec_signs (se d : bytes) : Prop := exists sig, ec_sign_out se d = Ret sig.
 
 (* self.Point(x, y): a carrier element, or NoSuchPointError *)
@@ -157,7 +163,7 @@ Definition ec_verify_out (pk d sig : bytes) : outcome bool :=
   do '(r, s) <- sigdecode_der sig true;
   do pr <- Sec.sec_to_public_pair secp256k1_p secp256k1_a secp256k1_b pk strict;
   e_verify (ec_key pr) (bz d) r s.
-Definition ec_verifies (pk d sig : bytes) : bool := match ec_verify_out pk d sig with Ret b => b | _ => false end.
+Definition ec_verifies (pk d sig : bytes) : bool := ret_or false (ec_verify_out pk d sig).
 
 (* ---- the neighbours' theorems at this instance -------------------------------------------------------------- *)
 Let laws := Props.C01compose.C01c_secp256k1_group_laws_unconditional blind.
@@ -191,12 +197,14 @@ Lemma ec_pub_spec se : secret_ok se ->
 Proof.
   intros Hse. pose proof (ec_point_finite se Hse) as HP.
   destruct (ec09_finite g secp256k1_M1 secp256k1_M4 (secp256k1_side blind) (esmul c (bz se) G) HP) as (x & y & E & Hx & Hy & Hc).
-  exists x, y. unfold ecoords. split; [exact E|]. split; [exact Hx|]. split; [change (cp c) with secp256k1_p in Hy; lia|].
+  assert (Hx' : 0 <= x < secp256k1_p) by exact Hx. assert (Hy' : 0 < y < secp256k1_p) by exact Hy.
+  assert (E' : @eval c (esmul c (bz se) G) = Some (x, y)) by exact E. clear E. rename E' into E.
+  assert (Hy0 : 0 <= y < secp256k1_p) by (clear - Hy'; lia).
+  exists x, y. unfold ecoords. split; [exact E|]. split; [exact Hx'|]. split; [exact Hy0|].
   split; [exact Hc|]. intros comp.
-  destruct (Props.C10.C10_sec_roundtrip_secp256k1_unconditional x y comp Hx ltac:(change (cp c) with secp256k1_p in Hy; change k1_p with secp256k1_p; lia) Hc)
-    as (sec & Es & L & _).
+  destruct (Props.C10.C10_sec_roundtrip_secp256k1_unconditional x y comp Hx' Hy0 Hc) as (sec & Es & L & _).
   exists sec. split; [exact Es|]. split; [|exact L].
-  unfold ec_pub_of, ec_pub_out, ecoords. rewrite E, Es. reflexivity.
+  unfold ec_pub_of, ec_pub_out, ecoords. rewrite E. cbn [sec_of_coords]. rewrite Es. reflexivity.
 Qed.
 
 Lemma ec_pub_wellformed se : secret_ok se ->
